@@ -391,3 +391,12 @@ func inStrings(l []string, n int, s string) bool {
 //@   loop 0 vars (i int)
 //@   loop 0 invariant -1 <= i && i < len(c.pendingCmds) && len(c.pendingCmds) == old(len(c.pendingCmds))
 //@   loop 0 invariant forall k int :: 0 <= k && k < len(c.pendingCmds) ==> c.pendingCmds[k] == old(c.pendingCmds[k])
+
+// IDLE keeps the encoder (and its lock) while the server is idling; when the
+// server refuses IDLE the encoder is released before idle returns, otherwise
+// no later command could ever be written.
+//
+//@ func (c *Client) idle() (cmd *idleCommand, err error)
+//@   props C12:post
+//@   ensures err != nil ==> __called("commandEncoder.end")
+//@   ensures err == nil ==> cmd != nil && !__called("commandEncoder.end")
